@@ -300,6 +300,8 @@ class _Hdf(Contract):
     self_schema = HDF + "#c11"
 
     def axioms(self, c):
+        # (A13; the injectivity of str(int) needs an infinite model of the string sort: the vacuity canaries answer `unknown`
+        #  only after their time limit, which costs wall time but no verdict)
         return axioms_naming()
 
 
